@@ -543,6 +543,11 @@ pub fn finish(id: &str, tier: &str, seed: u64, sum: RunSummary, required: &[(&st
         println!("KNOWN-FINDING: property={} {} [{}] (observed {} times)", id, what, sig, n);
     }
     if unlisted > 0 {
+        let mut hist: BTreeMap<String, u64> = BTreeMap::new();
+        for v in sum.out.violations.iter().filter(|v| v.known_sig.is_none()) {
+            *hist.entry(v.clause.clone()).or_insert(0) += 1;
+        }
+        println!("  clauses fired: {}", hist.iter().map(|(k, n)| format!("{}={}", k, n)).collect::<Vec<_>>().join(" "));
         let path = match &sum.first_violation {
             Some((idx, v, log, cfg)) => {
                 println!("  clause={} :: {}", v.clause, v.msg);
